@@ -1,6 +1,6 @@
 #![cfg(feature = "v1_local")]
 use std::marker::PhantomData;
-use aes::Aes256Ctr;
+use aes::Aes256;
 use aes::cipher::generic_array::GenericArray;
 use aes::cipher::{NewCipher, StreamCipher};
 use crate::core::common::cipher_text::CipherText;
@@ -13,7 +13,9 @@ impl CipherText<V1, Local> {
         crate::verif::emit("keystream:v1");
         let key = GenericArray::from_slice(encryption_key.as_ref());
         let nonce = GenericArray::from_slice(encryption_key.counter_nonce());
-        let mut cipher = Aes256Ctr::new(key, nonce);
+        //PASETO specifies aes-256-ctr with the whole 16 byte IV as a big endian counter
+        //(aes::Aes256Ctr only increments the low 64 bits)
+        let mut cipher = ctr::Ctr128BE::<Aes256>::new(key, nonce);
         let mut ciphertext = vec![0u8; payload.as_ref().len()];
 
         ciphertext.copy_from_slice(payload);
